@@ -87,3 +87,9 @@ Proof. reflexivity. Qed.
     translation-compressed matrix scaled by 1/sqrt(n_lp), the same factor that C_trans carries. *)
 Theorem c08_structure : compact_matrix_is_fresh_and_scaled_by_inv_sqrt_nlp = true /\ recover_fcs_is_comp_times_basis_times_coefs = true.
 Proof. split; reflexivity. Qed.
+
+(** The remaining source this property rests on is the recorded one (the basis-set classes of orders 2-4): whole-function match,
+    regenerated on every run (closes the gap between "the expected statements are present" and "nothing else was added"). *)
+From SymfcG Require Import ShapesBasis.
+Theorem c08_recorded_sources2_in_force : ShapesBasis_as_recorded = true.
+Proof. repeat split; reflexivity. Qed.
